@@ -154,7 +154,7 @@ def _judge(rec, m, d, w, e, c, qfrc, cone, overflow, ctx, W):
     t, st_, fl = e["type"], e["state"], e["frictionloss"].astype(np.float64)
     eps = 1e-4 * max(1.0, float(np.max(np.abs(f))))
     J = e["J"].astype(np.float64)
-    check_close(rec, "qfrc_constraint=J^T f", qfrc[w], J.T @ f, 1e-4, scale=max(1.0, float(np.max(np.abs(J).T @ np.abs(f))), float(np.max(np.abs(d.qfrc_smooth.numpy()[w])))), sig="qfrc", **ctx)
+    check_close(rec, "qfrc_constraint=J^T f", qfrc[w], J.T @ f, 5e-4, scale=max(1.0, float(np.max(np.abs(J).T @ np.abs(f))), float(np.max(np.abs(d.qfrc_smooth.numpy()[w])))), sig="qfrc", **ctx)
     if overflow & int(OT.ITERATIONS | OT.LS_ITERATIONS):
       return False
     interesting = False
